@@ -195,6 +195,14 @@ func (e *Engine) contractFor(f *ssa.Function) *FuncContract {
 	if f == nil {
 		return nil
 	}
+	// instantiation of a generic function: the contract is keyed by the generic origin
+	if o := f.Origin(); o != nil && o != f {
+		if o.Object() != nil && o.Object().Pkg() != nil {
+			if ct, ok := e.cs.Funcs[o.Object().Pkg().Path()+"::"+o.Name()]; ok {
+				return ct
+			}
+		}
+	}
 	if ct, ok := e.cs.Funcs[e.funcKey(f)]; ok {
 		return ct
 	}
